@@ -145,7 +145,7 @@ def context_scripts(rng, n):
     return out
 
 
-def collision_scripts(rng, n):
+def collision_scripts(rng, n, conflicting_returns=True):
     """Families of scripts that share identifiers, helper names + parameter lists, literal texts and tune names but differ in
     what those mean: anything remembered from one transpilation (memo tables keyed by name/signature/text, shared tables
     mutated in place) or iterated in set order (mixed bool/int operand sets) shows as a different output for a later script."""
@@ -221,7 +221,7 @@ def collision_scripts(rng, n):
                   "while True:", "    sleep(10)"]
         out.append("\n".join(L) + "\n")
     # helpers whose return statements disagree on the type (rejected today: whatever happens instead must not depend on set order)
-    for a, b in (("[1, 2, 3]", "[0.5, 1.5, 2.5]"), ("[1, 2]", '["a", "b"]'), ('"a"', "2.5"), ("True", "[1]")):
+    for a, b in (("[1, 2, 3]", "[0.5, 1.5, 2.5]"), ("[1, 2]", '["a", "b"]'), ('"a"', "2.5"), ("True", "[1]")) if conflicting_returns else ():
         out.append(HDR + f"def pick(k):\n    if k > 0:\n        return {a}\n    elif k < 0:\n        return {b}\n    return {a}\nxs = pick(1)\nys = pick(-1)\n")
     return out
 
